@@ -11,6 +11,7 @@ import (
 	"encoding/json"
 	"fmt"
 	"io"
+	"log"
 	"net/http"
 	"os"
 	"strings"
@@ -305,6 +306,170 @@ func (r *runner) inflightReport(kind, server, tool string, n int, out inflightOu
 	}
 }
 
+type toolHandler = func(context.Context, *mcp.CallToolRequest) (*mcp.CallToolResult, error)
+
+// scenarioServer: one real server with scenario-specific tools, and one peer connected to it.
+type scenarioServer struct {
+	k    string // st-json | st-sse | stateless | nosession | sse | stdio
+	p    inflightPeer
+	rl   rootsLister
+	plog *panicLog
+	// notify sends a server notification to the session a handler's context belongs to
+	notify func(ctx context.Context, method string, params map[string]interface{}) error
+	// drop: the peer goes away (stream / stdin+stdout closed) — the server stays
+	drop func()
+	// handshake: a fresh client on the same server (initialize, notifications/initialized, tools/list)
+	handshake func() string
+	closeAll  func()
+	// Streamable only: address and headers for raw connections
+	addr, rawHdr string
+}
+
+var scenarioCfg = map[string]StreamableCfg{"st-json": {Mode: "stateful"}, "st-sse": {Mode: "stateful", PostSSE: true}, "stateless": {Mode: "stateless"}, "nosession": {Mode: "sessionsOff", PostSSE: true}}
+
+// newScenarioServer builds the server of kind k with the tools `install` registers, connects a peer and performs the
+// handshake of a roots-capable client.
+func newScenarioServer(k string, install func(register func(name string, h toolHandler), self *scenarioServer), opts ...mcp.ServerOption) (*scenarioServer, error) {
+	sc := &scenarioServer{k: k, plog: &panicLog{}}
+	switch k {
+	case "stdio":
+		srv := mcp.NewStdioServer(ServerName, ServerVersion, mcp.WithStdioServerLogger(hk.QuietLogger{}))
+		install(func(name string, h toolHandler) { srv.RegisterTool(mcp.NewTool(name), h) }, sc)
+		sc.rl = srv
+		sp := newStdioPeer(srv)
+		sc.p = &framePeer{mu: &sp.mu, frames: &sp.lines, notify: sp.notify, closeFn: sp.close,
+			sendFn: func(b string) error {
+				// (a server that has stopped reading must not block the peer for ever)
+				done := make(chan error, 1)
+				go func() { _, err := sp.in.Write([]byte(b + "\n")); done <- err }()
+				select {
+				case err := <-done:
+					return err
+				case <-time.After(inflightPingCeiling):
+					return fmt.Errorf("the server did not take the line within %v", inflightPingCeiling)
+				}
+			}}
+		sc.notify = func(ctx context.Context, method string, params map[string]interface{}) error {
+			return fmt.Errorf("the stdio server has no SendNotification")
+		}
+		sc.drop = sp.close
+		sc.handshake = func() string { return (&stdioTarget{srv: srv}).Handshake() }
+		sc.closeAll = sp.close
+	case "sse":
+		srv := mcp.NewSSEServer(ServerName, ServerVersion, mcp.WithSSEServerLogger(hk.QuietLogger{}))
+		install(func(name string, h toolHandler) { srv.RegisterTool(mcp.NewTool(name), h) }, sc)
+		sc.rl = srv
+		tt := &sseTarget{reg: Registries["bare"], srv: srv, plog: sc.plog}
+		tt.ts = newQuietTestServer(srv)
+		tt.hc = &http.Client{Transport: &http.Transport{MaxIdleConnsPerHost: 64, DisableCompression: true}, Timeout: 2 * stepCeiling}
+		sp, _, err := openSSE(tt.ts.URL, tt.hc)
+		if err != nil {
+			tt.ts.Close()
+			return nil, err
+		}
+		tt.peer = sp
+		sc.p = &framePeer{mu: &sp.mu, frames: &sp.frames, notify: sp.notify, closeFn: tt.Close,
+			sendFn: func(b string) error {
+				go func() {
+					resp, err := tt.hc.Post(sp.msgURL, "application/json", strings.NewReader(b))
+					if err == nil {
+						io.Copy(io.Discard, resp.Body)
+						resp.Body.Close()
+					}
+				}()
+				return nil
+			}}
+		sc.notify = func(ctx context.Context, method string, params map[string]interface{}) error {
+			sess := mcp.ClientSessionFromContext(ctx)
+			if sess == nil {
+				return fmt.Errorf("no session in the context")
+			}
+			return srv.SendNotification(sess.GetID(), method, params)
+		}
+		sc.drop = sp.close
+		sc.handshake = tt.Handshake
+		sc.closeAll = tt.Close
+	default:
+		cfg := scenarioCfg[k]
+		fx := hk.NewFixture(hk.SrvCfg{Mode: cfg.Mode, Get: true, PostSSE: cfg.PostSSE}, opts...)
+		fx.TS.Config.ErrorLog = log.New(sc.plog, "", 0)
+		fx.HC.Timeout = 4 * stepCeiling
+		install(func(name string, h toolHandler) { fx.S.RegisterTool(mcp.NewTool(name), h) }, sc)
+		sc.rl = fx.S
+		sp := &streamablePeer{fx: fx, hdr: map[string]string{"Accept": "application/json", "Content-Type": "application/json"}, notify: make(chan struct{}, 1), stopped: make(chan struct{})}
+		if cfg.PostSSE {
+			sp.hdr["Accept"] = "application/json, text/event-stream"
+		}
+		if cfg.Mode == "stateful" {
+			ir := fx.Post(map[string]string{"Accept": "application/json"}, inflightInit)
+			sid := ir.Header.Get("Mcp-Session-Id")
+			sp.hdr["Mcp-Session-Id"] = sid
+			fx.Post(map[string]string{"Accept": "application/json", "Mcp-Session-Id": sid}, hsNotif)
+			if code, _, st, err := fx.OpenStream(map[string]string{"Mcp-Session-Id": sid}); err == nil && code == 200 {
+				sp.stream = st
+				go func() { // the stream's events wake the scenario up
+					for n := 1; ; n++ {
+						st.WaitEvents(n, time.Hour)
+						select {
+						case sp.notify <- struct{}{}:
+						default:
+						}
+						select {
+						case <-sp.stopped:
+							return
+						default:
+						}
+						if st.Ended(0) {
+							return
+						}
+					}
+				}()
+			}
+		}
+		sc.addr = fx.TS.Listener.Addr().String()
+		for _, h := range []string{"Content-Type", "Accept", "Mcp-Session-Id"} {
+			if v := sp.hdr[h]; v != "" {
+				sc.rawHdr += h + ": " + v + "\r\n"
+			}
+		}
+		sc.notify = func(ctx context.Context, method string, params map[string]interface{}) error {
+			sess := mcp.ClientSessionFromContext(ctx)
+			if sess == nil {
+				return fmt.Errorf("no session in the context")
+			}
+			return fx.S.SendNotification(sess.GetID(), method, params)
+		}
+		sc.drop = func() {
+			if sp.stream != nil {
+				sp.stream.CloseByClient()
+			}
+		}
+		st := &streamable{cfg: cfg, fx: fx, plog: sc.plog, sids: map[string]string{},
+			fresh: &http.Client{Transport: &http.Transport{DisableKeepAlives: true, DisableCompression: true}, Timeout: stepCeiling}}
+		sc.handshake = st.Handshake
+		sc.p = &closingPeer{inflightPeer: sp, after: func() { st.fresh.CloseIdleConnections(); closeWithin(3*time.Second, fx.Close) }}
+		sc.closeAll = sc.p.close
+	}
+	if k == "stdio" || k == "sse" {
+		// the handshake a roots-capable client performs
+		sc.p.send(inflightInit)
+		deadline := time.After(stepCeiling)
+		for done := false; !done; {
+			as, _ := sc.p.poll()
+			if _, ok := as[`"if-init"`]; ok {
+				break
+			}
+			select {
+			case <-sc.p.wake():
+			case <-deadline:
+				done = true
+			}
+		}
+		sc.p.send(hsNotif)
+	}
+	return sc, nil
+}
+
 // manyInFlight runs the scenarios for one server kind (st-json | st-sse | stateless | nosession | sse | stdio).
 func (r *runner) manyInFlight(k string) {
 	sizes := []int{70, 150, 300}
@@ -318,123 +483,21 @@ func (r *runner) manyInFlight(k string) {
 			}
 			r.s.About(fmt.Sprintf("in-flight %s x%d", tool, n), map[string]any{"server": k})
 			g := newGate()
-			var rl rootsLister
-			install := func(reg func(*mcp.Tool, func(context.Context, *mcp.CallToolRequest) (*mcp.CallToolResult, error))) {
-				reg(mcp.NewTool("gate"), g.tool())
-				reg(mcp.NewTool("roots"), rootsTool(func() rootsLister { return rl }))
-			}
-			var p inflightPeer
-			switch k {
-			case "stdio":
-				srv := mcp.NewStdioServer(ServerName, ServerVersion, mcp.WithStdioServerLogger(hk.QuietLogger{}))
-				install(func(t *mcp.Tool, h func(context.Context, *mcp.CallToolRequest) (*mcp.CallToolResult, error)) {
-					srv.RegisterTool(t, h)
-				})
-				rl = srv
-				sp := newStdioPeer(srv)
-				p = &framePeer{mu: &sp.mu, frames: &sp.lines, notify: sp.notify, closeFn: sp.close,
-					sendFn: func(b string) error {
-						// (a server that has stopped reading must not block the peer for ever)
-						done := make(chan error, 1)
-						go func() { _, err := sp.in.Write([]byte(b + "\n")); done <- err }()
-						select {
-						case err := <-done:
-							return err
-						case <-time.After(inflightPingCeiling):
-							return fmt.Errorf("the server did not take the line within %v", inflightPingCeiling)
-						}
-					}}
-			case "sse":
-				srv := mcp.NewSSEServer(ServerName, ServerVersion, mcp.WithSSEServerLogger(hk.QuietLogger{}))
-				install(func(t *mcp.Tool, h func(context.Context, *mcp.CallToolRequest) (*mcp.CallToolResult, error)) {
-					srv.RegisterTool(t, h)
-				})
-				rl = srv
-				tt := &sseTarget{reg: Registries["bare"], srv: srv, plog: &panicLog{}}
-				tt.ts = newQuietTestServer(srv)
-				tt.hc = &http.Client{Transport: &http.Transport{MaxIdleConnsPerHost: 64, DisableCompression: true}, Timeout: 2 * stepCeiling}
-				sp, _, err := openSSE(tt.ts.URL, tt.hc)
-				if err != nil {
-					r.fail("inflight-sse", err)
-					return
-				}
-				tt.peer = sp
-				p = &framePeer{mu: &sp.mu, frames: &sp.frames, notify: sp.notify, closeFn: tt.Close,
-					sendFn: func(b string) error {
-						go func() {
-							resp, err := tt.hc.Post(sp.msgURL, "application/json", strings.NewReader(b))
-							if err == nil {
-								io.Copy(io.Discard, resp.Body)
-								resp.Body.Close()
-							}
-						}()
-						return nil
-					}}
-			default:
-				cfg := map[string]StreamableCfg{"st-json": {Mode: "stateful"}, "st-sse": {Mode: "stateful", PostSSE: true}, "stateless": {Mode: "stateless"}, "nosession": {Mode: "sessionsOff", PostSSE: true}}[k]
-				fx := hk.NewFixture(hk.SrvCfg{Mode: cfg.Mode, Get: true, PostSSE: cfg.PostSSE})
-				fx.HC.Timeout = 4 * stepCeiling
-				install(func(t *mcp.Tool, h func(context.Context, *mcp.CallToolRequest) (*mcp.CallToolResult, error)) {
-					fx.S.RegisterTool(t, h)
-				})
-				rl = fx.S
-				sp := &streamablePeer{fx: fx, hdr: map[string]string{"Accept": "application/json", "Content-Type": "application/json"}, notify: make(chan struct{}, 1), stopped: make(chan struct{})}
-				if cfg.PostSSE {
-					sp.hdr["Accept"] = "application/json, text/event-stream"
-				}
-				if cfg.Mode == "stateful" {
-					ir := fx.Post(map[string]string{"Accept": "application/json"}, inflightInit)
-					sid := ir.Header.Get("Mcp-Session-Id")
-					sp.hdr["Mcp-Session-Id"] = sid
-					fx.Post(map[string]string{"Accept": "application/json", "Mcp-Session-Id": sid}, hsNotif)
-					if code, _, st, err := fx.OpenStream(map[string]string{"Mcp-Session-Id": sid}); err == nil && code == 200 {
-						sp.stream = st
-						go func() { // the stream's events wake the scenario up
-							for n := 1; ; n++ {
-								st.WaitEvents(n, time.Hour)
-								select {
-								case sp.notify <- struct{}{}:
-								default:
-								}
-								select {
-								case <-sp.stopped:
-									return
-								default:
-								}
-								if st.Ended(0) {
-									return
-								}
-							}
-						}()
-					}
-				}
-				inner := sp
-				p = &closingPeer{inflightPeer: inner, after: func() { closeWithin(3*time.Second, fx.Close) }}
-			}
-			if k == "stdio" || k == "sse" {
-				// the handshake a roots-capable client performs
-				p.send(inflightInit)
-				deadline := time.After(stepCeiling)
-				for done := false; !done; {
-					as, _ := p.poll()
-					if _, ok := as[`"if-init"`]; ok {
-						break
-					}
-					select {
-					case <-p.wake():
-					case <-deadline:
-						done = true
-					}
-				}
-				p.send(hsNotif)
+			sc, err := newScenarioServer(k, func(register func(string, toolHandler), self *scenarioServer) {
+				register("gate", g.tool())
+				register("roots", rootsTool(func() rootsLister { return self.rl }))
+			})
+			if err != nil {
+				r.fail("inflight-"+k, err)
+				return
 			}
 			t0 := time.Now()
-			out := runInflight(p, tool, n, g)
+			out := runInflight(sc.p, tool, n, g)
 			if os.Getenv("VERIF_RPC_TIMING") != "" {
 				fmt.Fprintf(os.Stderr, "timing in-flight %s %s x%d: %v\n", k, tool, n, time.Since(t0))
 			}
 			r.inflightReport(kindOf(k), k, tool, n, out)
-			p.close()
+			sc.closeAll()
 			if out.pingsLate > 0 || out.callsMissing > 0 {
 				return // the server is stuck: larger sizes would only wait for the same ceilings again
 			}
